@@ -82,6 +82,8 @@ type vC08Reader struct {
 	si       int
 	term     error
 	together bool
+	rest     []byte // transient fault: the bytes delivered after the error has been reported once
+	fired    bool
 	calls    int
 	starts   []int
 	record   bool
@@ -98,6 +100,31 @@ func (r *vC08Reader) Read(p []byte) (int, error) {
 	}
 	r.calls++
 	if r.off >= len(r.data) {
+		if r.rest != nil {
+			// transient fault: reported once (now, unless it went out with the last bytes), then the
+			// stream goes on
+			if !r.fired {
+				r.fired = true
+				return 0, r.term
+			}
+			n := len(p)
+			if len(r.segs) > 0 {
+				s := r.segs[r.si%len(r.segs)]
+				r.si++
+				if s > 0 && s < n {
+					n = s
+				}
+			}
+			if n > len(r.rest) {
+				n = len(r.rest)
+			}
+			if n == 0 {
+				return 0, io.EOF
+			}
+			copy(p, r.rest[:n])
+			r.rest = r.rest[n:]
+			return n, nil
+		}
 		if r.reported {
 			r.after++
 		}
@@ -119,6 +146,7 @@ func (r *vC08Reader) Read(p []byte) (int, error) {
 	r.off += n
 	if r.together && r.off == len(r.data) {
 		r.reported = true
+		r.fired = true
 		return n, r.term
 	}
 	return n, nil
@@ -133,6 +161,8 @@ type vC08Writer struct {
 	term   error
 	failed bool
 	after  int
+	transient bool // the Write calls after the faulty one succeed again
+	faults    int  // Write calls that returned a non-nil error
 }
 
 func (w *vC08Writer) Write(p []byte) (int, error) {
@@ -145,7 +175,10 @@ func (w *vC08Writer) Write(p []byte) (int, error) {
 	}
 	w.sizes = append(w.sizes, len(p))
 	if w.calls == w.failAt {
-		w.failed = true
+		w.failed = !w.transient
+		if w.term != nil {
+			w.faults++
+		}
 		w.calls++
 		mm := w.m
 		if mm > len(p) {
@@ -385,7 +418,8 @@ func vC08RunRtmpRead(c vSx, starts *[]int) (obs vSx, fails []vC08Fail, nontrivia
 		return bad, nil, false, -1
 	}
 	term := vC08Sentinels[termID]
-	together := c.l[5].int() != 0
+	together := c.l[5].int()&1 != 0
+	transient := c.l[5].int() >= 2 && termID != 0 // the error is reported once, then the stream goes on
 	var segs []int
 	for _, s := range c.l[6].l {
 		if !s.isInt() || s.int() < 0 {
@@ -424,6 +458,9 @@ func vC08RunRtmpRead(c vSx, starts *[]int) (obs vSx, fails []vC08Fail, nontrivia
 	out := []vSx{vZ(0)}
 	for _, k := range ks {
 		rd := &vC08Reader{data: wire[:k], segs: segs, term: term, together: together, record: starts != nil}
+		if transient {
+			rd.rest = append([]byte{}, wire[k:]...)
+		}
 		n := 0
 		var err error
 		func() {
@@ -504,6 +541,24 @@ func vC08RunRtmpRead(c vSx, starts *[]int) (obs vSx, fails []vC08Fail, nontrivia
 				boundary = true
 			}
 		}
+		if transient && together {
+			// data delivered together with a transient error: when those bytes complete a direct
+			// io.CopyN / io.ReadFull request (handshake, large chunk payloads) the stdlib reports
+			// success and the error is never seen again.  At such request boundaries only the model
+			// says what must happen; the content checks above still apply.
+			lenient := boundary
+			for _, e := range vC08Marks {
+				if base+e == k {
+					lenient = true
+				}
+			}
+			if lenient {
+				if n >= 0 && err == nil {
+					fail(k, "c08-nil-error", "session ended without an error")
+				}
+				continue
+			}
+		}
 		if n >= 0 && n != want {
 			fail(k, "c08-items", fmt.Sprintf("%d items returned, %d are completely contained in the first %d bytes", n, want, k))
 		}
@@ -536,8 +591,8 @@ type vC08WSession struct {
 	panic string
 }
 
-func vC08WriteSession(hs bool, ms []vC08Msg, failAt, m int, term error) (s vC08WSession) {
-	w := &vC08Writer{failAt: failAt, m: m, term: term}
+func vC08WriteSession(hs bool, ms []vC08Msg, failAt, m int, term error, transient bool) (s vC08WSession) {
+	w := &vC08Writer{failAt: failAt, m: m, term: term, transient: transient}
 	s.w = w
 	defer func() {
 		if r := recover(); r != nil {
@@ -593,9 +648,10 @@ func vC08WriteSession(hs bool, ms []vC08Msg, failAt, m int, term error) (s vC08W
 func vC08RunRtmpWrite(c vSx) (obs vSx, fails []vC08Fail, nontrivial bool, failK int) {
 	bad := vL(vZ(-1))
 	failK = -1
-	if len(c.l) != 7 || !c.l[2].isInt() || !c.l[4].isInt() || !c.l[5].isInt() || c.l[5].int() < 0 {
+	if (len(c.l) != 7 && len(c.l) != 8) || !c.l[2].isInt() || !c.l[4].isInt() || !c.l[5].isInt() || c.l[5].int() < 0 {
 		return bad, nil, false, -1
 	}
+	transient := len(c.l) == 8 && c.l[7].isInt() && c.l[7].int() == 0
 	hs := c.l[2].int() != 0
 	ms, ok := vC08ParseMsgs(c.l[3])
 	termID := c.l[4].int()
@@ -619,7 +675,7 @@ func vC08RunRtmpWrite(c vSx) (obs vSx, fails []vC08Fail, nontrivial bool, failK 
 		}
 	}
 	// the fault-free session: its transport writes, which operation issued each, and the wire
-	free := vC08WriteSession(hs, ms, -1, 0, nil)
+	free := vC08WriteSession(hs, ms, -1, 0, nil, false)
 	if free.panic != "" || free.err != nil || free.n != len(free.opEnd) {
 		fail(-1, "c08-fault-free", fmt.Sprintf("fault-free write session failed: %v %s", free.err, free.panic))
 		return vL(vZ(0)), fails, false, -1
@@ -644,12 +700,15 @@ func vC08RunRtmpWrite(c vSx) (obs vSx, fails []vC08Fail, nontrivial bool, failK 
 	}
 	out := []vSx{vZ(0)}
 	for _, fi := range is {
-		s := vC08WriteSession(hs, ms, fi, m, term)
+		s := vC08WriteSession(hs, ms, fi, m, term, transient)
 		cid := vC08CauseID(s.err)
 		out = append(out, vL(vI(s.n), vI(cid), vI(len(s.w.buf))))
 		if s.panic != "" {
 			fail(fi, "c08-panic", s.panic)
 			continue
+		}
+		if transient && term == nil {
+			continue // a transient short write without error: bufio may legitimately write the rest; no panic is all we ask
 		}
 		wantN, wantLen, wantC := free.n, len(wire), -1
 		if fi < len(calls) {
@@ -907,7 +966,11 @@ func TestVerifC08Rtmp(t *testing.T) {
 		}
 		if len(fails) > 0 && !single && fk >= 0 {
 			cc := vLs(append([]vSx{}, c.l...))
-			cc.l[len(cc.l)-1] = vL(vZ(1), vI(fk))
+			pos := 7 // <ks> of a read case
+			if write {
+				pos = 6 // <is> of a write case (a stickiness flag may follow)
+			}
+			cc.l[pos] = vL(vZ(1), vI(fk))
 			runOne(cc, true)
 		}
 	}
@@ -926,14 +989,14 @@ func TestVerifC08Rtmp(t *testing.T) {
 	for i := 0; i < nSmall; i++ {
 		msgs, wl := vC08GenMsgs(k.rnd, true, false)
 		for j := 0; j < 3; j++ {
-			runOne(rdCase(0, msgs, vC08TermRead(k.rnd), k.rnd.intn(2), vC08GenSegs(k.rnd), vL(vZ(0), vZ(0), vI(wl))), false)
+			runOne(rdCase(0, msgs, vC08TermRead(k.rnd), k.rnd.intn(4), vC08GenSegs(k.rnd), vL(vZ(0), vZ(0), vI(wl))), false)
 		}
 	}
 	// with the handshake: every offset (quick: one session)
 	nHs := k.N(1, 6)
 	for i := 0; i < nHs; i++ {
 		msgs, wl := vC08GenMsgs(k.rnd, true, false)
-		runOne(rdCase(1, msgs, vC08TermRead(k.rnd), k.rnd.intn(2), vC08GenSegs(k.rnd), vL(vZ(0), vZ(0), vI(wl+vC08HsLen))), false)
+		runOne(rdCase(1, msgs, vC08TermRead(k.rnd), k.rnd.intn(4), vC08GenSegs(k.rnd), vL(vZ(0), vZ(0), vI(wl+vC08HsLen))), false)
 	}
 	// larger sessions: every offset when the byte budget allows, else every chunk/item boundary +-2 and random offsets
 	nLarge := k.N(16, 80)
@@ -954,7 +1017,7 @@ func TestVerifC08Rtmp(t *testing.T) {
 		for _, e := range vC08Marks {
 			marks = append(marks, base+e)
 		}
-		runOne(rdCase(hs, msgs, vC08TermRead(k.rnd), k.rnd.intn(2), vC08GenSegs(k.rnd), vC08PickKs(k, base+wl, marks, 1)), false)
+		runOne(rdCase(hs, msgs, vC08TermRead(k.rnd), k.rnd.intn(4), vC08GenSegs(k.rnd), vC08PickKs(k, base+wl, marks, 1)), false)
 	}
 	// error at every transport Read call index
 	nIdx := k.N(30, 300)
@@ -979,7 +1042,7 @@ func TestVerifC08Rtmp(t *testing.T) {
 		set = vC08Thin(k, set, vC08Budget(k, wl, 1)/4)
 		k.hist["rtmp"]["read-call-indices"] += len(set) - 1
 		for _, term := range []int{1, 2, 4, k.rnd.pickInt(5, 6, 7, 8, 9)} {
-			runOne(rdCase(hs, msgs, term, k.rnd.intn(2), segs, vLs(set)), false)
+			runOne(rdCase(hs, msgs, term, k.rnd.intn(4), segs, vLs(set)), false)
 		}
 	}
 	// writes: a fault at every transport Write call index
@@ -991,9 +1054,9 @@ func TestVerifC08Rtmp(t *testing.T) {
 			hs = 1
 		}
 		term := k.rnd.pickInt(0, 1, 2, 4, 4, 5, 6, 7, 8, 9)
-		m := k.rnd.pickInt(0, 0, 1, 3, 10, 12, 100, 1<<30)
+		m := k.rnd.pickInt(0, 0, 1, 3, 10, 12, 100, 4095, 4096, 4097, 1<<30)
 		ms, _ := vC08ParseMsgs(vLs(msgs))
-		free := vC08WriteSession(hs == 1, ms, -1, 0, nil)
+		free := vC08WriteSession(hs == 1, ms, -1, 0, nil, false)
 		nc := len(free.w.sizes)
 		is := vL(vZ(0), vZ(0), vI(nc))
 		if lim := vC08Budget(k, len(free.w.buf), 1); nc+1 > lim {
@@ -1003,6 +1066,6 @@ func TestVerifC08Rtmp(t *testing.T) {
 			}
 			is = vLs(vC08Thin(k, set, lim))
 		}
-		runOne(vL(vZ(3), vZ(1), vI(hs), vLs(msgs), vI(term), vI(m), is), false)
+		runOne(vL(vZ(3), vZ(1), vI(hs), vLs(msgs), vI(term), vI(m), is, vI(k.rnd.intn(2))), false)
 	}
 }
